@@ -100,6 +100,13 @@ func execStep(context *exprContext, expr *grammar.Grammar) error {
 
 		context.result = selectChild(nodeSet)
 		context.principalKind = elementKind
+	case symbols.NT_FunctionCall:
+		// A function call used as a step is evaluated for the nodes the path
+		// has selected so far; like every other step it cannot continue a value
+		// that is not a node-set (1/not('s'), 'abc'/string-length()).
+		if _, ok := context.result.(NodeSet); !ok {
+			return errQueryNonNodeset
+		}
 	}
 
 	return execContext(context, expr.Next(nextBsr))
